@@ -46,6 +46,9 @@ def run(ctx, prop="C08"):
         for v in real["violations"]:
             if v["sig"] == "real-poller-message-class" and "expected ClockErrorBoundData" in v["detail"]:
                 viol.append({"sig": "synchronised-report-not-passed-on", "detail": v["detail"], "replay": v.get("replay", "")})
+            elif v["sig"] == "real-poller-message-class" and "message ClockErrorBoundData expected" in v["detail"]:
+                # the other direction: a poll without a usable measurement (chronyd silent, PHC unreadable) handed on as one - the record advances instead of freezing
+                viol.append({"sig": "measurement-passed-on-for-a-failed-poll", "detail": v["detail"], "replay": v.get("replay", "")})
             elif v["sig"] == "report-altered-by-the-poller":
                 viol.append({"sig": "report-altered-by-the-poller", "detail": v["detail"], "replay": v.get("replay", "")})
         if real.get("inconclusive") and not inconclusive:
